@@ -62,7 +62,7 @@ def run(rep, tier, seed):
         for weakly in (False, True):
             if system == "c-inference" and weakly:
                 continue
-            bounds = [(2, 2)] if quick else ([(2, 2), (3, 2), (2, 3)] if system in ("p-entailment", "system-z") else [(2, 2), (3, 2)])
+            bounds = [(2, 2)] if quick else ([(2, 2), (3, 2), (2, 3)] if system in ("p-entailment", "system-z") else ([(2, 2), (3, 2)] if pm == "z3" and not weakly else [(2, 2)]))
             if system == "c-inference" and not quick:
                 bounds = [(2, 2), (3, 2)]
             for N, M in bounds:
